@@ -304,6 +304,7 @@ PROPS = {
                      "Grol.E.triggerNoCache_loud", "Grol.E.evalDelete_loud", "Grol.E.finishCall_quiet", "Grol.E.applyFunction_quiet",
                      "Grol.E.makeRef_go_quiet", "Grol.E.no_trigger_during", "Grol.E.no_del_during", "Grol.E.nested_call_during",
                      "Grol.E.C04.quiet_call_deterministic", "Grol.E.C04.quiet_call_depends_only_on_trusted", "Grol.E.C04.agree_stRq",
+                     "Grol.E.C04.constant_param_is_miss", "Grol.E.C04.purity_footprint_full", "Grol.E.applyFunction_quiet_full",
                      "Grol.E.stRq_miss", "Grol.E.det_agree", "Grol.E.det_run", "Grol.E.ren_id",
                      "Grol.R.qSpec_all", "Grol.R.applyFunction_qstep", "Grol.R.finishCall_loud", "Grol.R.SimG.switch", "Grol.R.SimQ.bind",
                      "Grol.R.StRq.retarget", "Grol.R.qsim_makeRef_go", "Grol.R.qsim_makeRef", "Grol.R.qsim_envGet", "Grol.R.qsim_valueOf",
